@@ -124,6 +124,67 @@ def _run_case_symbolic(args):
     return out
 
 
+def _child(conn, item):
+    try:
+        r = _run_case_symbolic(item)
+    except BaseException as e:      # noqa
+        r = dict(index=item[1], error='%s: %s' % (type(e).__name__, e))
+    try:
+        conn.send(r)
+    except Exception as e:
+        conn.send(dict(index=item[1], error='result not transferable: %s' % e))
+    conn.close()
+
+
+def _run_all(ctx, work, jobs, tier, cases):
+    """one process per case with a HARD wall-clock limit: a solver call that ignores its resource limit, or a worker killed by a
+    stack overflow, can neither hang the run nor be taken for success (reported as an unknown obligation of that case)"""
+    limit = float(os.environ.get('VERIF_CASE_TIMEOUT', '900' if tier == 'quick' else '3600')) + 120.0
+    pending = list(work)
+    running = []
+    results = {}
+    while pending or running:
+        while pending and len(running) < jobs:
+            item = pending.pop(0)
+            pc, cc = ctx.Pipe(duplex=False)
+            pr = ctx.Process(target=_child, args=(cc, item))
+            pr.start()
+            cc.close()
+            running.append((pr, pc, item, time.time()))
+        still = []
+        for pr, pc, item, t0 in running:
+            got = None
+            if pc.poll(0):
+                try:
+                    got = pc.recv()
+                except EOFError:
+                    got = None
+                    pr.join(1)
+            if got is not None:
+                results[item[1]] = got
+                pr.join(5)
+                continue
+            dead = not pr.is_alive()
+            if dead and pc.poll(0):
+                still.append((pr, pc, item, t0))
+                continue
+            if dead or time.time() - t0 > limit:
+                if not dead:
+                    pr.kill()
+                    pr.join(5)
+                why = 'worker died (exit code %s)' % pr.exitcode if dead else 'hard wall-clock limit %.0f s exceeded (solver ignored its limits)' % limit
+                results[item[1]] = dict(index=item[1], error=None, name=cases[item[1]].name, paths=0, complete=False, outcomes={'timeout': 1},
+                                        decisions=0, obligations=[dict(label='case completes within the time budget (%s)' % why, status='unknown',
+                                                                       how='solver', secs=time.time() - t0, prefix=[])],
+                                        stats={}, hashes={}, stubs={}, errors=[], n_errors=0, samples=[], wall_s=time.time() - t0)
+                continue
+            still.append((pr, pc, item, t0))
+        running = still
+        if running:
+            time.sleep(0.2)
+    return [results[item[1]] for item in work]
+
+
 def replay_case(pid, case_name, values, tier, seed, timeout=600):
     """run one concrete case in a fresh interpreter against the real library -> (status, failures)"""
     req = dict(property=pid, case=case_name, values=values, tier=tier, seed=seed)
@@ -179,11 +240,7 @@ def main(argv=None):
     idxs = [i for i, c in enumerate(cases) if (not a.only or re.search(a.only, c.name)) and not c.concrete_only]
     work = [(pid, i, tier, seed) for i in idxs]
     ctx = mp.get_context('fork')
-    if a.jobs > 1 and len(work) > 1:
-        with ctx.Pool(min(a.jobs, len(work)), maxtasksperchild=1) as pool:
-            results = pool.map(_run_case_symbolic, work, chunksize=1)
-    else:
-        results = [_run_case_symbolic(w) for w in work]
+    results = _run_all(ctx, work, max(1, a.jobs), tier, cases)
 
     known = load_known()
     violations = []
